@@ -306,6 +306,16 @@ func TestForkAdoption(t *testing.T) {
 				t.Fatalf("stored identity diff at height %d differs from the reference node after adoption (%s)", hh, desc)
 			}
 		}
+		// abandoned blocks are gone by hash as well: a node that followed the fork from the start never stored them
+		// (peers on the abandoned branch are answered from these look-ups)
+		for _, b := range ownBlocks {
+			if a, r := own.Chain.GetBlock(b.Hash()) != nil, ref.Chain.GetBlock(b.Hash()) != nil; a != r {
+				t.Fatalf("abandoned block %s: found by hash after adoption = %v, on the reference node = %v (%s)", sim.BlockDesc(b), a, r, desc)
+			}
+			if b.IsEmpty() {
+				evid.Count("adoption.abandoned_empty_block")
+			}
+		}
 		onFork := map[common.Hash]bool{}
 		for _, b := range bundles {
 			for i, tx := range b.Block.Body.Transactions {
